@@ -116,13 +116,14 @@ func TransformModuleFilesToModel( //nolint:funlen,gocognit,cyclop
 			}
 
 			types = append(types, typeDef.GetType())
-			if typeDef.GetMetadata() != nil {
+			if typeDef.GetMetadata().GetModule() != "" {
 				typeDef.Metadata.SourceInfo = &openfgav1.SourceInfo{
 					File: module.Name,
 				}
 			} else {
 				transformErrors = multierror.Append(transformErrors, &ModuleTransformationSingleError{
-					Msg: "file is not a module",
+					Msg:  "file is not a module",
+					File: module.Name,
 				})
 				continue
 			}
